@@ -1528,6 +1528,12 @@ def check(run, repo):
 O_ = 'pmutt/io/omkm.py'
 R_ = 'pmutt/omkm/reaction.py'
 MUTANTS = [
+    {'name': 'wb3 A3: NASA coefficients handed to the serialiser as list(array) (NumPy scalars)',
+     'expect': ('SLOT.yaml', 'Nasa.to_omkm_yaml'),
+     'edits': [('pmutt/empirical/nasa.py', "'data': [self.a_low.tolist(),\n                                self.a_high.tolist()]}", "'data': [list(self.a_low), list(self.a_high)]}")]},
+    {'name': 'wb3 A4: slopes of a lateral interaction printed as a list of NumPy scalars',
+     'expect': ('DATAFLOW.interaction', 'PiecewiseCovEffect.to_cti'),
+     'edits': [('pmutt/mixture/cov.py', "        return [slope * factor for slope in self.slopes]", "        return list(np.asarray(self.slopes) * factor)")]},
     # the four repairs of white-box round 3 reverted (D1-D4, known_findings.json status=fixed)
     {'name': 'D4 reverted: NASA-9 entry closes the thermo tuple only', 'expect': ('SLOT.cti', 'Nasa9.to_cti'),
      'edits': [('pmutt/empirical/nasa.py', "        cti_str = '{}))\\n'.format(cti_str[:-2])", "        cti_str = '{})\\n'.format(cti_str[:-2])")]},
